@@ -586,7 +586,7 @@ fn run_batch(b: &Batch, obs: &mut Obs) -> CheckResult {
 }
 
 pub(crate) fn wellformed_sub() -> Box<dyn SubCheck> {
-    EnumSub { name: "wellformed", count: |t, _| t.pick(150, 5_000), make: make_batch, run: run_batch, exhaustive: false }.boxed()
+    EnumSub { name: "wellformed", count: |t, _| t.pick(150, 4_000), make: make_batch, run: run_batch, exhaustive: false }.boxed()
 }
 
 /// One probe document through the oracle: if python3 / expat / the helper
@@ -781,7 +781,7 @@ pub(crate) fn parsers_sub() -> Box<dyn SubCheck> {
     PropSub {
         name: "parsers",
         strategy: parse_strategy,
-        cases: |t| t.pick(150_000, 6_000_000),
+        cases: |t| t.pick(150_000, 4_000_000),
         run: run_parse,
         floors: &[("all-err", 0.2), ("some-ok", 0.08), ("ok-after-mutation", 0.02), ("ok-6492", 0.01), ("ok-8181", 0.02), ("ok-8183", 0.02)],
     }
